@@ -8,7 +8,7 @@ WT=$(mktemp -d /var/tmp/seedfin.XXXXXX); rm -rf "$WT"; mkdir -p "$OUT"
 git -C /repo worktree add --detach "$WT" HEAD >/dev/null 2>&1 || { echo "worktree failed"; exit 2; }
 cp /repo/src/pygaps/_version.py "$WT/src/pygaps/_version.py"
 cd "$WT"; export PYTHONPATH="$WT/src"
-mkdir -p "$WT/_seed"; sed -e "s#/tmp/seed4/C[0-9][0-9]#$WT#g" -e "s#/tmp/seed3/C[0-9][0-9]#$WT#g" -e "s#/tmp/seed2/C[0-9][0-9]#$WT#g" -e "s#/tmp/seed/C[0-9][0-9]#$WT#g" "$DEMO" > "$WT/_seed/demo.py"
+mkdir -p "$WT/_seed"; sed -e "s#/tmp/seed6/C[0-9][0-9]#$WT#g" -e "s#/tmp/seed4/C[0-9][0-9]#$WT#g" -e "s#/tmp/seed3/C[0-9][0-9]#$WT#g" -e "s#/tmp/seed2/C[0-9][0-9]#$WT#g" -e "s#/tmp/seed/C[0-9][0-9]#$WT#g" "$DEMO" > "$WT/_seed/demo.py"
 timeout 900 /venv/bin/python _seed/demo.py > "$OUT/demo_clean.out" 2>&1; CLEAN=$?
 AP=0
 if ! git apply "$PATCH" 2> "$OUT/apply.err"; then
